@@ -201,6 +201,8 @@ Definition c01_step (g : g01) (V : view) (ob : obs) : g01 * clauses :=
              chk (hash_eqb (root_from_leaf p PRE_DEBT (LDebt (dp_node dp) amount)) (d_debt_root d0)) dk 4 idx ++
              chk (lamports (vget V pk) - lamports a1 =? amount) pk 5 amount ++
              chk ((lamports (post_of V post jk) - lamports (vget V jk) =? amount) || key_eqb jk pk) jk 6 amount ++
+             (* "to the journal": the credited account is the program's journal *)
+             chk (key_eqb jk KRdJournal && match journal_of (vget V jk) with Some _ => true | None => false end) jk 31 0 ++
              chk (rent (alen a1) <=? lamports a1) pk 7 (lamports a1) ++
              match dist_of (post_of V post dk) with
              | Some (d1, t1) => chk (bit_of t1 (d_debt_start d1) (d_debt_end d1) idx) dk 8 idx
@@ -222,6 +224,7 @@ Definition distributed (g : g02) (dk : key) (idx : N) : bool := existsb (fun '(k
 (* expected per-ATA credit: the sum over the recipient entries that name this ATA *)
 Definition expected_credit (recips : list (key * N)) (remainder : N) (ata : key) : N :=
   sumN (map (fun '(r, s) => if key_eqb (KAta r KMint) ata then s * remainder / 10000 else 0) recips).
+Definition SWEPT_MARK : N := 18446744073709551616.     (* 2^64: not a leaf index *)
 Definition c02_step (g : g02) (V : view) (ob : obs) : g02 * clauses :=
   let '(o, ok, post) := ob in
   if negb (ok && is_tx o) then (g, []) else
@@ -237,6 +240,7 @@ Definition c02_step (g : g02) (V : view) (ob : obs) : g02 * clauses :=
       | _ => [] end) post in
   let '(g', cs) :=
     match single_rd o with
+    | Some (RSweep, ms, _) => (g ++ [(nthk ms 1, SWEPT_MARK)], [])      (* remember, in the ghost, that this distribution was swept *)
     | Some (RDistributeRewards us ebr p, ms, _) =>
         let dk := nthk ms 1 in let ck := nthk ms 2 in let tk := nthk ms 3 in
         match dist_of (vget V dk), contrib_of (vget V ck), leaf_index p, dist_of (post_of V post dk) with
@@ -255,6 +259,8 @@ Definition c02_step (g : g02) (V : view) (ob : obs) : g02 * clauses :=
              chk (negb (bit_of t0 (d_rew_start d0) (d_rew_end d0) idx)) dk 3 idx ++
              chk (bit_of t1 (d_rew_start d1) (d_rew_end d1) idx) dk 4 idx ++
              chk (d_swept d0) dk 5 0 ++
+             (* ... and swept by an accepted sweep of this very distribution earlier in the history, whatever the flag says *)
+             chk (distributed g dk SWEPT_MARK) dk 14 0 ++
              chk (hash_eqb (root_from_leaf p PRE_REWARD (LReward (cr_service cr) us ebr)) (d_rewards_root d0)) dk 6 idx ++
              chk (key_eqb tk (KTok2z dk)) tk 7 0 ++
              (* exactly floor(unit_share x total / 10^9) leaves custody; all of it is transferred or burned *)
@@ -665,7 +671,14 @@ Definition c08_step (V : view) (ob : obs) : clauses :=
                     | None => [] end
         | IxPassport p => match ppconfig_of (vget V KPpConfig) with
                           | Some c => chk (negb (pc_paused c) || pp_pause_exempt p) KPpConfig 2 (pp_tag p) ++
-                                      match p with PRequestAccess _ => chk (negb (pc_request_paused c)) KPpConfig 3 0 | _ => [] end
+                                      match p with PRequestAccess _ => chk (negb (pc_request_paused c)) KPpConfig 3 0 | _ => [] end ++
+                                      (* "the request-only pause blocks requests alone": each switch drives its own flag only *)
+                                      match p, ppconfig_of (post_of V post KPpConfig) with
+                                      | PConfigureProgram (PSFlag (PFIsPaused b)), Some c1 =>
+                                          chk (Bool.eqb (pc_paused c1) b && Bool.eqb (pc_request_paused c1) (pc_request_paused c)) KPpConfig 5 0
+                                      | PConfigureProgram (PSFlag (PFIsRequestAccessPaused b)), Some c1 =>
+                                          chk (Bool.eqb (pc_request_paused c1) b && Bool.eqb (pc_paused c1) (pc_paused c)) KPpConfig 5 0
+                                      | _, _ => [] end
                           | None => [] end
         | IxSwap (SBuySol _ _) | IxRogueBuy _ _ =>
                     match config_of (vget V KRdConfig) with Some c => chk (negb (c_paused c)) KRdConfig 4 0 | None => [] end
